@@ -489,7 +489,10 @@ var (
 // same pointer-valued composite written twice in one package.
 func c13TwinProgram(id string) (*Program, []string, [][2]string) {
 	p := &Program{ID: id, Module: ModulePath, Extra: map[string]string{}, Feat: map[string]string{"family": "twin-packages"}, RawDriver: true}
-	p.Pkgs = []*Pkg{{Name: "app", Dir: "app"}, {Name: "lib", Dir: "lib"}, {Name: "lib", Dir: "lib2"}}
+	p.Pkgs = []*Pkg{{Name: "app", Dir: "app"}, {Name: "lib", Dir: "lib"}, {Name: "lib", Dir: "lib2"}, {Name: "region", Dir: "east/region"}, {Name: "region", Dir: "west/region"}}
+	// each twin imports ITS region package under the same (default) name
+	p.Extra["3/region.go"] = "package region\n\nvar Name = \"east\"\n\nvar Rate = 3\n"
+	p.Extra["4/region.go"] = "package region\n\nvar Name = \"west\"\n\nvar Rate = 50\n"
 	exprs := []struct{ e, t string }{
 		{"TwinI", "int"}, {"TwinS", "string"}, {"TwinSl", "[]int"}, {"TwinM", "map[string]int"}, {"&TwinI", "*int"},
 		{"TwinI + 1", "int"}, {"[]int{TwinI, 3}", "[]int"}, {"TwinF", "float64"}, {"TwinA", "[2]int"}, {"TwinSl[0]", "int"},
@@ -506,8 +509,16 @@ func c13TwinProgram(id string) (*Program, []string, [][2]string) {
 		alias string
 	}{{1, 1, "A", "liba"}, {2, 10, "B", "libb"}} {
 		var src strings.Builder
-		fmt.Fprintf(&src, "package lib\n\nimport (\n\t\"github.com/google/wire\"\n\t\"%s/tr\"\n)\n\nvar _ = tr.New\n", ModulePath)
+		fmt.Fprintf(&src, "package lib\n\nimport (\n\t\"github.com/google/wire\"\n\t\"%s/tr\"\n\t\"%s\"\n)\n\nvar _ = tr.New\n", ModulePath, p.ImportPath(lib.idx+2))
 		fmt.Fprintf(&src, c13TwinDecls, lib.scale, lib.tag)
+		for k, ex := range []struct{ e, t string }{{"region.Name", "string"}, {"region.Rate * 2", "int"}, {"[]string{region.Name}", "[]string"}} {
+			key := fmt.Sprintf("twr%d_%s", k, lib.tag)
+			fmt.Fprintf(&src, "var RegionSet%d = wire.NewSet(wire.Value(%s))\nvar _ = tr.Home(%q, %s)\n", k, ex.e, key, ex.e)
+			inj := fmt.Sprintf("TwinRegion%d%s", k, lib.tag)
+			fmt.Fprintf(&injs, "func %s() %s {\n\tpanic(wire.Build(%s.RegionSet%d))\n}\n\n", inj, ex.t, lib.alias, k)
+			fmt.Fprintf(&drv, "\ttr.Injector(%q, %q, nil, func(c_ *tr.Call) {\n\t\tres_ := %s()\n\t\ttr.SameAsHome(%q, res_)\n\t})\n", id, inj, inj, key)
+			keys = append(keys, inj)
+		}
 		for k, ex := range exprs {
 			key := fmt.Sprintf("tw%d_%s", k, lib.tag)
 			fmt.Fprintf(&src, "var TwinSet%d = wire.NewSet(wire.Value(%s))\nvar _ = tr.Home(%q, %s)\n", k, ex.e, key, ex.e)
